@@ -65,6 +65,22 @@ pub fn pool() -> Vec<E> {
     v.push(arr(vec![E::Float(f64::NAN)]));
     v.push(arr(vec![E::Int(2), E::Int(1)]));
     v.push(arr(vec![arr(vec![])]));
+    // deeply nested arrays (two separately built equal ones, one with 1.0 for 1, one differing at the bottom)
+    let deep = |n: usize, leaf: E| -> E {
+        let mut e = E::Arr(vec![leaf]);
+        for _ in 0..n {
+            e = E::Arr(vec![e]);
+        }
+        e
+    };
+    v.push(deep(17, E::Int(1)));
+    v.push(deep(17, E::Float(1.0)));
+    v.push(deep(17, E::Int(2)));
+    v.push(deep(40, E::Int(1)));
+    v.push(deep(40, E::Float(1.0)));
+    // wide ones
+    v.push(arr((0..40).map(E::Int).collect()));
+    v.push(arr((0..40).map(|i| if i == 39 { E::Float(39.0) } else { E::Int(i) }).collect()));
     v.push(arr(vec![E::Float(1.5)]));
     v.push(arr(vec![E::Byte(1)]));
     v.push(arr(vec![E::Int(1), E::Int(1)]));
